@@ -63,6 +63,12 @@ pub enum Job {
     LeadingZero { si: usize, base: Base, block: usize },
     /// odd k = 2t+1: c + e + v * x^s * prod_{i<=2t}(x - 2^i), e of weight <= 2
     Supercode { si: usize, base: Base, block: usize },
+    /// every syndrome vector over `alpha`^k with first syndrome `first`, realised as an error
+    /// on the k error-correction positions of the block (the decoder's behaviour is a function
+    /// of the syndromes; this enumerates its state space over a small alphabet)
+    SyndromeAlphabet { si: usize, base: Base, block: usize, alpha: Vec<u8>, first: u8 },
+    /// c + v * x^s * prod_{i in a..=b}(x - 2^i): syndromes a..=b vanish, the others do not (in general)
+    ZeroRange { si: usize, base: Base, block: usize, full: bool },
     /// 10x10: all words within distance `dist` of the codeword whose first error is (pos, val)
     Ball10 { base: Base, pos: usize, val: u8, dist: usize, values_full: bool },
 }
@@ -236,6 +242,105 @@ pub fn expand(job: &Job, f: &mut dyn FnMut(&[u8], &[u8], CaseInfo)) {
                                     f(&orig, &r2, CaseInfo { max_block_weight: usize::MAX });
                                 }
                             }
+                        }
+                    }
+                }
+            }
+        }
+        Job::SyndromeAlphabet { si, base, block, alpha, first } => {
+            let sy = &SYMBOLS[*si];
+            let k = sy.ec_per_block();
+            let idx = blk_idx(sy, *block);
+            let n = idx.len();
+            let orig = base_codeword(*si, *base);
+            // M[i][j] = (2^(i+1))^(k-1-j): syndrome i+1 of a unit error at EC position j of the block
+            let mut m: Vec<Vec<u8>> = (0..k).map(|i| (0..k).map(|j| gf::pow(gf::pow(2, i + 1), k - 1 - j)).collect()).collect();
+            // invert by Gauss-Jordan
+            let mut inv: Vec<Vec<u8>> = (0..k).map(|i| (0..k).map(|j| (i == j) as u8).collect()).collect();
+            for c in 0..k {
+                let piv = (c..k).find(|r| m[*r][c] != 0).expect("Vandermonde matrix is regular");
+                m.swap(c, piv);
+                inv.swap(c, piv);
+                let d = gf::inv(m[c][c]);
+                for x in 0..k {
+                    m[c][x] = gf::mul(m[c][x], d);
+                    inv[c][x] = gf::mul(inv[c][x], d);
+                }
+                for r in 0..k {
+                    if r != c && m[r][c] != 0 {
+                        let f2 = m[r][c];
+                        for x in 0..k {
+                            let (a, b) = (gf::mul(f2, m[c][x]), gf::mul(f2, inv[c][x]));
+                            m[r][x] ^= a;
+                            inv[r][x] ^= b;
+                        }
+                    }
+                }
+            }
+            let na = alpha.len();
+            let total = na.pow(k as u32 - 1);
+            let mut syn = vec![0u8; k];
+            syn[0] = *first;
+            let mut r = orig.clone();
+            for v in 0..total {
+                let mut vv = v;
+                for q in 1..k {
+                    syn[q] = alpha[vv % na];
+                    vv /= na;
+                }
+                if syn.iter().all(|x| *x == 0) {
+                    continue;
+                }
+                for j in 0..k {
+                    let mut e = 0u8;
+                    for i in 0..k {
+                        e ^= gf::mul(inv[j][i], syn[i]);
+                    }
+                    let g = idx[n - k + j];
+                    r[g] = orig[g] ^ e;
+                }
+                f(&orig, &r, CaseInfo { max_block_weight: usize::MAX });
+            }
+        }
+        Job::ZeroRange { si, base, block, full } => {
+            let sy = &SYMBOLS[*si];
+            let k = sy.ec_per_block();
+            let idx = blk_idx(sy, *block);
+            let n = idx.len();
+            let orig = base_codeword(*si, *base);
+            for a in 1..=k {
+                for b in a..=k {
+                    if !*full && !(a <= 3 || b == k || b - a <= 1) {
+                        continue;
+                    }
+                    if a == 1 && b == k {
+                        continue; // a codeword
+                    }
+                    // prod_{i=a..=b}(x - 2^i), highest degree first
+                    let mut p = vec![1u8];
+                    for i in a..=b {
+                        let root = gf::pow(2, i);
+                        let mut q = vec![0u8; p.len() + 1];
+                        for (j, c) in p.iter().enumerate() {
+                            q[j] ^= *c;
+                            q[j + 1] ^= gf::mul(*c, root);
+                        }
+                        p = q;
+                    }
+                    let deg = p.len() - 1;
+                    if deg > n - 1 {
+                        continue;
+                    }
+                    let smax = n - 1 - deg;
+                    let mut shifts = vec![0, smax / 2, smax];
+                    shifts.dedup();
+                    for s in shifts {
+                        for v in V2 {
+                            let mut r = orig.clone();
+                            for (q, c) in p.iter().enumerate() {
+                                r[idx[n - 1 - (s + deg) + q]] ^= gf::mul(*c, v);
+                            }
+                            f(&orig, &r, CaseInfo { max_block_weight: usize::MAX });
                         }
                     }
                 }
